@@ -68,10 +68,7 @@ def one_history(ctx, hno, steps):
         if eff_init <= eff_size:
             return fail("ctor-rejects", "constructor rejected a legal "
                         "interval (init %d <= size %d)" % (eff_init, eff_size))
-        out = core.lean_batch("interval", lines)
-        if out != impl:
-            ctx.tie_broken.append("correspondence:interval ctor %r impl=%s "
-                                  "lean=%s" % (line, impl, out))
+        ctx.tie.add("history %d" % hno, lines, impl)
         return True
     ctx.count("ctor:ok")
     want = (contents[:eff_size] + b"\0" * 64)[:eff_init] if True else b""
@@ -185,13 +182,7 @@ def one_history(ctx, hno, steps):
             if not ok:
                 return fail("saveload", "interval does not survive save+load "
                             "(%s)" % exc)
-    out = core.lean_batch("interval", lines)
-    for i, (a, b) in enumerate(zip(impl, out)):
-        if a != b:
-            ctx.tie_broken.append("correspondence:interval history %d line "
-                                  "%r impl=%s lean=%s" % (hno, lines[i], a, b))
-            return False
-    ctx.traces += len(lines)
+    ctx.tie.add("history %d" % hno, lines, impl)
     if hno < 2:
         ctx.sample({"script": script[:10], "final": impl[-1]})
     return True
@@ -204,18 +195,22 @@ def run(ctx):
                 "byte pokes, address edits; block views probed around both "
                 "ends; save+load every 4 steps; non-trivial = distinct "
                 "(operation, shrinks?, equal-to-stored?)")
+    ctx.tie = core.BatchTie(ctx, "interval", "interval")
     n = ctx.scale(400, 15000)
     for h in range(n):
         if not one_history(ctx, h, ctx.scale(12, 24)):
             if len(ctx.violations) >= 3:
                 break
+    ctx.tie.flush()
 
 
 def search(ctx, broken):
+    ctx.tie = core.BatchTie(ctx, "interval", "interval")
     for h in range(3000):
         one_history(ctx, 10**6 + h, 24)
         if ctx.violations:
             break
+    ctx.tie.flush()
 
 
 def replay(ctx, data):
